@@ -38,11 +38,12 @@ Lemma apply_flag_frame name s :
   fb_params (apply_flag name s) = fb_params s /\ fb_v (apply_flag name s) = fb_v s /\ fb_state (apply_flag name s) = fb_state s.
 Proof. unfold apply_flag. destruct (eqb_nocase name str_lr); destruct s; cbn; auto. Qed.
 
-(* quoted-string content as the name-addr parser reads it: no white space inside (blanks inside quotes: render/parse oracle) *)
+(* quoted-string content as the name-addr parser reads it: plain bytes, escapes, and white space the LWS skipper crosses (blanks, folds) *)
 Inductive fqc : list byte -> Prop :=
 | fqc_nil : fqc []
 | fqc_plain c q : ccls_of c <> KDq -> ccls_of c <> KBsl -> ccls_of c <> KWs -> fqc q -> fqc (c :: q)
-| fqc_esc d q : is_crlf d = false -> fqc q -> fqc (92 :: d :: q).
+| fqc_esc d q : is_crlf d = false -> fqc q -> fqc (92 :: d :: q)
+| fqc_ws w q : wsr w -> fqc q -> (q = [] \/ exists c q', q = c :: q' /\ is_ws c = false) -> fqc (w ++ q).
 Inductive valtxt : list byte -> Prop :=
 | vt_tok v0 value : vchar v0 -> Forall vchar value -> valtxt (v0 :: value)
 | vt_quoted q : fqc q -> valtxt (34 :: q ++ [34]).
@@ -133,6 +134,15 @@ Proof.
 Qed.
 Lemma span_last (X' : list byte) l pre : is_ws l = false -> span is_ws (rev (X' ++ [l]) ++ pre) = 0%nat.
 Proof. intros H. rewrite rev_app_distr. cbn [rev app span]. rewrite H. reflexivity. Qed.
+
+(* white space met in a state that only skips it *)
+Lemma g_lws_ws h (pre w : list byte) c (y : list byte) i s s1 : (forall c0 r, is_ws c0 = true -> fb_iter h pre (c0 :: r) i s = fb_lws h pre (c0 :: r) i s1) ->
+  wsr w -> is_ws c = false -> run (fb_iter h) pre (w ++ c :: y) i 0 s = run (fb_iter h) (rev w ++ pre) (c :: y) (i + nnat (length w)) 0 s1.
+Proof.
+  intros H Hw Hc. destruct (wsr_head w Hw) as (c0 & w' & Ew & Hc0).
+  apply run_step; [rewrite Ew; discriminate|]. rewrite Ew at 1. cbn [app]. rewrite (H c0 _ Hc0). unfold fb_lws.
+  change (c0 :: w' ++ c :: y) with ((c0 :: w') ++ c :: y). rewrite <- Ew. rewrite (wsr_skip w c y Hw Hc). reflexivity.
+Qed.
 
 Section Gen.
   Variable h : N.
@@ -227,10 +237,18 @@ Section Gen.
       rewrite (run_one it _ 61 _ _ _ _ (s_eq_e b _ y _ a e 0 0 prm)). reflexivity.
   Qed.
   (* quoted content *)
+  Lemma ws_qv b pre c0 r i a pe vs ve prm : is_ws c0 = true -> it pre (c0 :: r) i (W b QV a pe vs ve prm) = fb_lws h pre (c0 :: r) i (W b QV a pe vs ve prm).
+  Proof. intros Hc. apply ws_class in Hc. stp; rewrite Hc; reflexivity. Qed.
   Lemma seg_fqc b q : fqc q -> forall (pre y : list byte) i a pe vs ve prm,
     run it pre (q ++ (34 : byte) :: y) i 0 (W b QV a pe vs ve prm) = run it ((34 : byte) :: rev q ++ pre) y (i + nnat (length q) + 1) 0 (W b PV a pe vs ve prm).
   Proof.
-    induction 1 as [|c q C1 C2 C3 _ IH|d q Hd _ IH]; intros pre y i a pe vs ve prm.
+    induction 1 as [|c q C1 C2 C3 _ IH|d q Hd _ IH|w q Hw _ IH Hq]; intros pre y i a pe vs ve prm.
+    4:{ assert (G : run it pre ((w ++ q) ++ (34 : byte) :: y) i 0 (W b QV a pe vs ve prm)
+                    = run it (rev w ++ pre) (q ++ (34 : byte) :: y) (i + nnat (length w)) 0 (W b QV a pe vs ve prm)).
+        { rewrite <- app_assoc. destruct Hq as [->|(c & q' & -> & Hc)]; cbn [app].
+          - unfold it. apply (g_lws_ws h pre w 34 y i _ _ (fun c0 r H => ws_qv b pre c0 r i a pe vs ve prm H) Hw eq_refl).
+          - unfold it. apply (g_lws_ws h pre w c (q' ++ (34 : byte) :: y) i _ _ (fun c0 r H => ws_qv b pre c0 r i a pe vs ve prm H) Hw Hc). }
+        rewrite G, IH. rewrite rev_app_distr, <- app_assoc, app_length. f_equal. unfold nnat. lia. }
     - cbn [app rev length]. rewrite (run_one it _ 34 _ i _ _ (s_qend b pre y i a pe vs ve prm)). f_equal. unfold nnat. lia.
     - cbn [app]. rewrite (run_one it _ c _ i _ _ (s_q b pre c _ i a pe vs ve prm C1 C2 C3)). rewrite IH. cbn [rev length]. rewrite <- app_assoc. cbn [app]. f_equal. unfold nnat. lia.
     - change ((92 :: d :: q) ++ 34 :: y) with ([92; d] ++ (q ++ 34 :: y)).
@@ -788,7 +806,14 @@ Section Disp.
   Lemma fqc_run_name q : fqc q -> forall s (pre y : list byte) i, fb_state s = FbQuoted ->
     run it pre (q ++ (34 : byte) :: y) i 0 s = run it ((34 : byte) :: rev q ++ pre) y (i + nnat (length q) + 1) 0 (s <| fb_state := FbName |>).
   Proof.
-    induction 1 as [|c q C1 C2 C3 _ IH|d q Hd _ IH]; intros s pre y i Hs.
+    induction 1 as [|c q C1 C2 C3 _ IH|d q Hd _ IH|w q Hw _ IH Hq]; intros s pre y i Hs.
+    4:{ assert (Hws : forall c0 r, is_ws c0 = true -> it pre (c0 :: r) i s = fb_lws h pre (c0 :: r) i s).
+        { intros c0 r Hc0. apply ws_class in Hc0. unfold fb_iter. rewrite Hs. unfold fb_step, fb_gQ. rewrite Hc0. reflexivity. }
+        assert (G : run it pre ((w ++ q) ++ (34 : byte) :: y) i 0 s = run it (rev w ++ pre) (q ++ (34 : byte) :: y) (i + nnat (length w)) 0 s).
+        { rewrite <- app_assoc. destruct Hq as [->|(c & q' & -> & Hc)]; cbn [app].
+          - apply (g_lws_ws h pre w 34 y i s s Hws Hw eq_refl).
+          - apply (g_lws_ws h pre w c (q' ++ (34 : byte) :: y) i s s Hws Hw Hc). }
+        rewrite G, IH by exact Hs. rewrite rev_app_distr, <- app_assoc, app_length. f_equal. unfold nnat. lia. }
     - cbn [app rev length]. rewrite (run_one it pre 34 y i s (s <| fb_state := FbName |>)); [f_equal; unfold nnat; lia|].
       unfold fb_iter. rewrite Hs. unfold fb_step, fb_gQ. reflexivity.
     - cbn [app]. rewrite (run_one it pre c _ i s s); [|unfold fb_iter; rewrite Hs; unfold fb_step, fb_gQ; destruct (ccls_of c); try congruence; reflexivity].
